@@ -284,10 +284,10 @@ func (sc *SpecCtx) call(x *SExpr) Val {
 		return Val{T: tUint64, C: []string{"(xxh " + v.C[0] + ")"}}
 	case "allocated":
 		v := sc.eval(args[0])
-		return mkBool(sel(sc.arr(allocName, "(Array Int Bool)"), v.C[0]))
+		return mkBool(allocatedIn(v.C[0], sc.arr(allocName, "Int")))
 	case "fresh": // allocated during this call
 		v := sc.eval(args[0])
-		return mkBool(and(not(sel(st.arrIn(sc.old, allocName, "(Array Int Bool)"), v.C[0])), sel(sc.arr(allocName, "(Array Int Bool)"), v.C[0]), fmt.Sprintf("(> %s 1000)", v.C[0])))
+		return mkBool(and(fmt.Sprintf("(>= %s %s)", v.C[0], st.arrIn(sc.old, allocName, "Int")), allocatedIn(v.C[0], sc.arr(allocName, "Int"))))
 	case "base": // backing store identity of a slice
 		v := sc.eval(args[0])
 		return Val{T: tUntypedInt, C: []string{v.C[0]}}
@@ -313,7 +313,7 @@ func (sc *SpecCtx) call(x *SExpr) Val {
 		d := sc.arr(smDom, "(Array Int (Array Int Bool))")
 		vt := sc.arr(smVTag, arr2Sort(SInt))
 		vv := sc.arr(smVVal, arr2Sort(SInt))
-		return mkBool(fmt.Sprintf("(forall ((%s Int)) (=> (select (select %s %s) %s) (and (= (select (select %s %s) %s) %s) (> (select (select %s %s) %s) 1000))))",
+		return mkBool(fmt.Sprintf("(forall ((%s Int)) (=> (select (select %s %s) %s) (and (= (select (select %s %s) %s) %s) (not (= (select (select %s %s) %s) 0)))))",
 			k, d, id, k, vt, id, k, e.typeTag(t), vv, id, k))
 	case "smHas": // smHas(m, key): key is present in the sync.Map m
 		m, k := sc.eval(args[0]), sc.eval(args[1])
